@@ -1679,6 +1679,148 @@ func caseFromSeed(part string, seed uint64) {
 		genChain(r, origin)
 	case "ftitle":
 		genFileTitles(r, origin)
+	case "links":
+		genLinks(r, origin)
+	}
+}
+
+// genLinks: content.Successors itself.  A document of a random media type carrying ALL of
+// subject / config / layers / manifests / blobs (also the members its media type does not
+// read: an index with layers, a Docker manifest with a subject, a manifest listed as a
+// blob, a blob listed as a manifest, the same descriptor twice) is handed to the real
+// function; the result is compared with the model (Model/Links.v) and with the clause of the
+// property text evaluated by the harness.
+func genLinks(r *common.Rand, origin string) {
+	salt := r.U64()
+	mts := []string{ocispec.MediaTypeImageLayer, ocispec.MediaTypeImageConfig, ocispec.MediaTypeImageManifest,
+		ocispec.MediaTypeImageIndex, dag.MTArtifactManifest, dag.MTDockerManifest, "application/octet-stream"}
+	var univ []ocispec.Descriptor
+	ids := map[key]int{}
+	for i := 0; i < 4+r.Intn(4); i++ {
+		d := content.NewDescriptorFromBytes(common.Pick(r, mts), []byte(fmt.Sprintf("u-%d-%x", i, salt)))
+		ids[keyOf(d)] = i
+		if r.Chance(1, 3) {
+			d.Annotations = map[string]string{"k": "v"}
+		}
+		if r.Chance(1, 4) {
+			d.Platform = &ocispec.Platform{Architecture: "amd64", OS: "linux"}
+		}
+		univ = append(univ, d)
+	}
+	pickList := func() []int {
+		var out []int
+		for i := 0; i < r.Intn(4); i++ {
+			x := r.Intn(len(univ))
+			out = append(out, x)
+			if r.Chance(1, 5) {
+				out = append(out, x)
+			}
+		}
+		return out
+	}
+	kinds := []struct{ name, mt string }{
+		{"dockermanifest", dag.MTDockerManifest}, {"imagemanifest", ocispec.MediaTypeImageManifest},
+		{"dockerlist", dag.MTDockerManifestList}, {"imageindex", ocispec.MediaTypeImageIndex},
+		{"artifact", dag.MTArtifactManifest}, {"other", common.Pick(r, []string{ocispec.MediaTypeImageLayer, ocispec.MediaTypeImageConfig, "application/json", ""})},
+	}
+	k := common.Pick(r, kinds)
+	subject := -1
+	if r.Bool() {
+		subject = r.Intn(len(univ))
+	}
+	cfg := r.Intn(len(univ))
+	layers, mans, blobs := pickList(), pickList(), pickList()
+	descs := func(xs []int) []ocispec.Descriptor {
+		out := []ocispec.Descriptor{}
+		for _, x := range xs {
+			out = append(out, univ[x])
+		}
+		return out
+	}
+	doc := map[string]any{"schemaVersion": 2, "mediaType": k.mt, "config": univ[cfg],
+		"layers": descs(layers), "manifests": descs(mans), "blobs": descs(blobs), "artifactType": "application/vnd.verif"}
+	if subject >= 0 {
+		doc["subject"] = univ[subject]
+	}
+	body, _ := json.Marshal(doc)
+	dd := content.NewDescriptorFromBytes(k.mt, body)
+	fetched := false
+	f := content.FetcherFunc(func(_ context.Context, d ocispec.Descriptor) (io.ReadCloser, error) {
+		fetched = true
+		if d.Digest != dd.Digest {
+			return nil, errdef.ErrNotFound
+		}
+		return io.NopCloser(bytes.NewReader(body)), nil
+	})
+	got, err := content.Successors(ctx, f, dd)
+	id := run.NewID()
+	var toks []string
+	for _, d := range got {
+		if i, ok := ids[keyOf(d)]; ok {
+			toks = append(toks, strconv.Itoa(i))
+		} else {
+			toks = append(toks, "?")
+		}
+	}
+	// the property's clause, evaluated here
+	var want []string
+	app := func(xs ...int) {
+		for _, x := range xs {
+			want = append(want, strconv.Itoa(x))
+		}
+	}
+	sub := func() {
+		if subject >= 0 {
+			app(subject)
+		}
+	}
+	switch k.name {
+	case "dockermanifest":
+		app(cfg)
+		app(layers...)
+	case "imagemanifest":
+		sub()
+		app(cfg)
+		app(layers...)
+	case "dockerlist":
+		app(mans...)
+	case "imageindex":
+		sub()
+		app(mans...)
+	case "artifact":
+		sub()
+		app(blobs...)
+	}
+	obs := "s:" + strings.Join(toks, ",")
+	if err != nil {
+		obs = "err"
+	}
+	rep := map[string]any{"kind": "seed", "part": "links", "seed": strings.TrimPrefix(origin, "links-seed-")}
+	if err != nil || strings.Join(toks, ",") != strings.Join(want, ",") {
+		run.OracleFail(id, "successors-links", fmt.Sprintf("content.Successors of a %s document = [%s] (err %v), the referenced subject/config/layers/manifests/blobs are [%s]",
+			k.name, strings.Join(toks, ","), err, strings.Join(want, ",")), rep)
+	}
+	if k.name == "other" && fetched {
+		run.OracleFail(id, "successors-fetch-non-manifest", "content.Successors fetched a non-manifest", rep)
+	}
+	ls := func(xs []int) string {
+		if len(xs) == 0 {
+			return "-"
+		}
+		var p []string
+		for _, x := range xs {
+			p = append(p, strconv.Itoa(x))
+		}
+		return strings.Join(p, ",")
+	}
+	ss := "-"
+	if subject >= 0 {
+		ss = strconv.Itoa(subject)
+	}
+	run.Case(id, fmt.Sprintf("L %s %s %d %s %s %s %s", k.name, ss, cfg, ls(layers), ls(mans), ls(blobs), origin), obs)
+	run.Count("links-" + k.name)
+	if len(want) > 0 {
+		run.Nontrivial("links " + k.name + " " + ss + " " + strings.Join(want, ","))
 	}
 }
 
@@ -2090,6 +2232,9 @@ func main() {
 	for i := 0; i < run.Scale(120, 4000); i++ {
 		caseFromSeed("ftitle", run.Rand.U64())
 	}
+	for i := 0; i < run.Scale(600, 20000); i++ {
+		caseFromSeed("links", run.Rand.U64())
+	}
 	kinds := []string{"oci", "oci", "oci", "oci", "memory", "file"}
 	for i := 0; i < nStore; i++ {
 		caseFromSeed(kinds[i%len(kinds)], run.Rand.U64())
@@ -2117,6 +2262,8 @@ func coverageFloors() []string {
 		"foreign-roots-only-index": 10, "push-concurrent": 40, "order-parents-first": 40,
 		"order-children-first": 40, "order-shuffled": 40, "query-absent-node-with-preds": 500,
 		"tag-non-manifest": 5, "delete-absent": 5, "phase2-concurrent-push": 10,
+		"links-dockermanifest": 40, "links-imagemanifest": 40, "links-dockerlist": 40, "links-imageindex": 40,
+		"links-artifact": 40, "links-other": 40,
 	}
 	var keys []string
 	for k := range floors {
